@@ -17,7 +17,6 @@ package index
 import (
 	"bytes"
 	"fmt"
-	"log"
 	"math"
 	"regexp/syntax"
 	"strings"
@@ -1306,8 +1305,9 @@ func (d *indexData) newMatchTree(q query.Q, opt matchTreeOpt) (matchTree, error)
 			},
 		}, nil
 	}
-	log.Panicf("type %T", q)
-	return nil, nil
+	// e.g. type:repo, which only the sharded searcher can evaluate (it rewrites
+	// it into a RepoSet before the query reaches a shard).
+	return nil, fmt.Errorf("query node %T (%s) cannot be evaluated by a shard searcher", q, q)
 }
 
 func (d *indexData) newSubstringMatchTree(s *query.Substring) (matchTree, error) {
